@@ -83,6 +83,7 @@ inline void emit(const Shape& sh, int i, const std::vector<int>& len, Rng& r, Sc
     if (e < 0) {
       sc.ops.push_back(Op{OP_UPD, static_cast<uint8_t>(i), 0, 0.f});
       if (r.chance(sh.p_view)) sc.ops.push_back(Op{OP_VIEW, static_cast<uint8_t>(i), 0, 0.f});
+      if (allow_rt && r.chance(sh.p_rt * 0.06)) { sc.ops.push_back(Op{OP_RT, static_cast<uint8_t>(i), 0, 0.f}); sc.has_rt = true; }
     } else {
       emit(sh, e, len, r, sc, allow_rt);
       if (allow_rt && r.chance(sh.p_rt)) { sc.ops.push_back(Op{OP_RT, static_cast<uint8_t>(e), 0, 0.f}); sc.has_rt = true; }
@@ -205,7 +206,9 @@ template<typename Fam>
 void run_exhaustive(const Scenario& sc, unsigned f_expected) {
   typedef typename Fam::SK SK;
   const std::string fam = Fam::name();
-  const std::string path = sc.has_rt ? "serde-merge-tree" : (sc.has_merge ? "merge-tree" : "single-stream");
+  // one key per path class: any scenario with a merge -> merge-tree (a serialization round trip inside it is named in the
+  // detail); round trips without any merge have their own class so that a serde-only defect is not mixed up with a merge defect
+  const std::string path = sc.has_merge ? "merge-tree" : (sc.has_rt ? "single-stream-serde-roundtrip" : "single-stream");
   const std::string kp = fam + "|exhaustive|" + path + "|";
   const std::vector<float> truth = truth_of(sc);
   const uint64_t n = truth.size();
@@ -220,7 +223,7 @@ void run_exhaustive(const Scenario& sc, unsigned f_expected) {
   std::vector<uint64_t> s_ex(nd, 0), s_in(nd, 0), w_ex(nd), w_in(nd);
   const unsigned f = f_expected;
   const uint64_t outcomes = 1ULL << f;
-  const std::string ctx = sc.shape + " f=" + std::to_string(f) + " n=" + std::to_string(n);
+  const std::string ctx = sc.shape + (sc.has_rt ? " (with serde round trips)" : "") + " f=" + std::to_string(f) + " n=" + std::to_string(n);
   const uint64_t rank_stride = std::max<uint64_t>(1, outcomes / 128);
   Script script;
   bool aborted = false;
@@ -349,7 +352,7 @@ Shape gen_shape(Rng& r, bool want_merge) {
   if (sh.nsk > 1 && r.chance(0.2)) sh.w[0] = 0.0;   // root receives data only through merges (fresh target)
   Fam::gen_cfgs(r, sh.nsk, sh.cfg);
   sh.p_view = r.chance(0.3) ? 0.05 : 0.0;
-  sh.p_rt = (Fam::allow_rt() && want_merge && r.chance(0.25)) ? 0.5 : 0.0;
+  sh.p_rt = (Fam::allow_rt() && r.chance(0.25)) ? 0.5 : 0.0;
   sh.p_move = r.chance(0.3) ? 0.5 : (r.chance(0.5) ? 0.0 : 1.0);
   sh.value_mode = static_cast<int>(r.below(7));
   sh.domain = static_cast<int>(r.pick({2, 3, 5, 10, 20}));
